@@ -81,7 +81,7 @@ top:
 		}
 		switch tsp := sp.(type) {
 		case slip.Symbol:
-			key = append(key, tsp...)
+			key = append(key, specializerName(tsp)...)
 		case slip.Class:
 			key = append(key, tsp.Name()...)
 		default:
